@@ -316,6 +316,14 @@ def check_trailing_comment(run: Run) -> None:
     fi = em.func("emit_assignment")
     # the local that holds the value's text: bound from emit_value(...) directly or through a quoting helper applied to it
     value_vars = {a.targets[0].id for a in walk_no_nested(fi.node) if isinstance(a, ast.Assign) and isinstance(a.targets[0], ast.Name) and isinstance(a.value, ast.Call) and any(isinstance(c, ast.Call) and _text(c.func) == "emit_value" for c in ast.walk(a.value))}
+    # ... and locals that copy such a local (`value_str = quoted_or_plain`)
+    grew = True
+    while grew:
+        grew = False
+        for a in walk_no_nested(fi.node):
+            if isinstance(a, ast.Assign) and isinstance(a.targets[0], ast.Name) and a.targets[0].id not in value_vars and isinstance(a.value, ast.Name) and a.value.id in value_vars:
+                value_vars.add(a.targets[0].id)
+                grew = True
     if not value_vars:
         raise AnalysisError("emit_assignment: value text variable not found")
     uses = [n for n in walk_no_nested(fi.node) if isinstance(n, ast.Call) and _text(n.func) == "_emit_trailing_comment"]
